@@ -82,3 +82,9 @@ def schema_sdl_pool(root):
         except Exception:
             pass
     return {}
+
+
+PROPS["VAL"] = {
+    "rule": "development job: default plan on random documents",
+    "nontrivial": lambda lines, meta: any(l.startswith("E ") for l in lines),
+}
